@@ -125,6 +125,11 @@ func Cur() int {
 	return i
 }
 
+// Epoch returns the number of the current execution (changes at every Execute).
+//
+//go:norace
+func Epoch() int64 { return curEpoch }
+
 // NoteForeign is called by shims when an uncontrolled goroutine performs a
 // shimmed operation during a run.
 func NoteForeign() {
